@@ -131,6 +131,18 @@ func generate(tier string, r *rng.R) []scenario {
 			}
 		}
 	}
+	// [empty] a version whose file holds no statement (comments only) is applied like any other: it gets its
+	// revision, is never pending again, and the versions after it stay in order
+	for pos := 0; pos < 3; pos++ {
+		for _, ck := range []bool{false, true} {
+			d := dirSpec{mk("1", false), mk("2", false), mk("3", false)}
+			d[pos].NStmts = 0
+			d[pos].Ckpt = ck
+			add("empty", false, d, apply(0, "linear"), apply(0, "linear"))
+			add("empty", false, d, apply(1, "linear"), apply(1, "linear"), apply(1, "linear"), apply(0, "linear"))
+			add("empty", false, d[:pos+1], apply(0, "linear"), op{Kind: "add", Files: d[pos+1:]}, apply(0, "linear"), apply(0, "non-linear"))
+		}
+	}
 	// [set]
 	for _, d := range allDirs([]string{"1", "2", "3"}) {
 		if nck(d) > 1 && !thorough {
